@@ -142,6 +142,16 @@ Example c04_body_calls_example :
   codes (body_calls_result lib [111] [chars [120]]) = [60; 91; 97; 93; 120; 62].
 Proof. split; vm_compute; reflexivity. Qed.
 
+(* Both levels at once: calls in the arguments of a call (expanded in the caller's frame) whose template has calls in its
+   body (expanded after the substitution, in the new frame). *)
+Theorem c04_two_levels_of_calls :
+  forall pfnames lib opts name args,
+    two_level_ok pfnames lib name args = true -> o_tfn opts = [] -> o_pfn opts = [] ->
+    exists F, forall fuel, (F <= fuel)%nat ->
+      expand_T pfnames lib opts fuel [FTitle] true (chars name :: args) = Some (two_level_result lib name args).
+Proof. exact two_level_call. Qed.
+Print Assumptions c04_two_levels_of_calls.
+
 (* #if with plain arguments, wherever it stands (any expansion path below the depth limit, with or without full
    expansion): the second argument when the first is not blank, else the third; trimmed; absent arguments are empty *)
 Theorem c04_if_with_plain_arguments :
